@@ -48,6 +48,22 @@ Lemma magic_arg_inplace_witness :
   = [("path", Node [("show", Leaf (Some (VBool true)))]); ("path_show", Leaf (Some (VBool true)))].
 Proof. vm_compute. reflexivity. Qed.
 
+(* obj.style = <instance of the style class>: the object's style IS (a copy of) the instance afterwards,
+   whatever it was before -- for every schema, previous state and instance *)
+Lemma style_instance_takes_over : forall (s : schema) (st inst : tree),
+  set_style colors style_setter_takes_instance s st (SInst inst) = (inst, None).
+Proof. intros s st inst. reflexivity. Qed.
+
+(* a value that is neither a dict nor a style instance is rejected and changes nothing *)
+Lemma style_wrong_rejected : forall (t : bool) (s : schema) (st : tree),
+  set_style colors t s st SWrong = (st, Some EValue).
+Proof. intros t s st. reflexivity. Qed.
+
+(* record of the form before 9298ef3: the instance was ignored *)
+Lemma style_instance_ignored_record : forall (s : schema) (st inst : tree),
+  set_style colors false s st (SInst inst) = (st, None).
+Proof. intros s st inst. reflexivity. Qed.
+
 (* record of the variant before 4641759 (alias listed by as_dict): arrow.size = 2 by attribute, then
    update(magnetization_arrow_size=0.5) left 2; with the generated schema it gives 0.5 *)
 Definition p_asize : path := ["magnetization"; "arrow"; "size"].
